@@ -192,7 +192,11 @@ func (n *nodeContext) disjunctError() errors.Error {
 	k := len(errors.Errors(disjuncts))
 	if k == 1 {
 		if pos != nil {
-			addDisjunctPositions(disjuncts.(*ValueError), pos)
+			// The single error is not necessarily a *ValueError: a user
+			// error created by the error builtin is wrapped, for instance.
+			if ve, ok := disjuncts.(*ValueError); ok {
+				addDisjunctPositions(ve, pos)
+			}
 		}
 		return disjuncts
 	}
